@@ -39,16 +39,18 @@ def main():
     sites = {}
     for n in range(0, N + 1):
         chars = [z3.BitVec(f"c{i}", 32) for i in range(n)]
-        res = explore(lambda ctx: L.run_lexer(P, ctx, chars), max_paths=400000)
-        C.note_paths(res)
-        n_ok = 0
-        for i, r in enumerate(res):
+        cnt = {"ok": 0, "paths": 0}
+
+        def handle(i, r, chars=chars, n=n, cnt=cnt):
+            cnt["paths"] += 1
+            if r.kind == "unwind":
+                C.inconclusive.append(f"unwinding bound hit: {r.value}")
             if r.kind == "ok":
-                n_ok += 1
+                cnt["ok"] += 1
                 C.note_interp(r.value[0])
-                continue
+                return
             if r.kind != "panic":
-                continue
+                return
             p = r.value
             site = f"lex/{p.fn}/{p.kind}/{'slice-start' if 'start' in p.msg else 'slice-end' if 'end' in p.msg else p.msg[:30]}"
 
@@ -60,8 +62,11 @@ def main():
                         "detail": f"garden check exit={code} {err[:160]!r}"}
             C.prove(f"n{n}/path{i}:no-panic:{p.kind}@{p.line}", r.pc, False, site=site, what=f"the lexer panics: {p}", replay=replay,
                     model_desc=lambda m, chars=chars: repr(L.model_string(m, chars)))
+        explore(lambda ctx: L.run_lexer(P, ctx, chars), max_paths=2000000, on_result=handle)
+        C.paths += cnt["paths"]
+        n_ok = cnt["ok"]
         C.reach(f"n{n}/lexer-returns", [z3.BoolVal(n_ok > 0)])
-        C.sample({"source_chars": n, "paths": len(res), "returning_paths": n_ok})
+        C.sample({"source_chars": n, "paths": cnt["paths"], "returning_paths": n_ok})
 
     # translator validation: concrete sources through the encoding and through the real lexer (hook)
     from checks.tytemplates import HookSession
